@@ -390,6 +390,15 @@ def proof_stage(res, prop, prop_v, thorough=False):
     cov["discharged"] = len(thms)
     if thorough:
         cov["coqchk"] = coqchk(prop_v)
+        ck = cov["coqchk"]
+        axioms_none = re.search(r"\* Axioms: <none>", ck["output_tail"]) is not None
+        ck["axioms_none"] = axioms_none   # axioms of every LOADED library; those a theorem uses are in assumptions_printed
+        if ck["rc"] != 0:
+            p = write_replay(prop, "coq_failure.txt",
+                             "coqchk (independent re-check of the compiled closure of %s) rc=%s, axioms-none=%s\n\n%s"
+                             % (prop_v, ck["rc"], axioms_none, ck["output_tail"]))
+            res.coq_failure = p
+            return False, cov
     return True, cov
 
 
